@@ -93,6 +93,7 @@ class Opts:
         self.anon_root = True
         self.name_pool = None         # override of the hostile name alphabet
         self.type_suffix = "Type"
+        self.mixed_odds = 24          # one complex type in mixed_odds + 1 is mixed
         self.components = False       # global element refs, substitution groups, named groups, attribute groups
         self.global_names = False     # element names are unique across the whole schema
         self.builtins = None          # override of the builtin simple types
@@ -363,7 +364,7 @@ class _B:
         elif shape == 1:
             pass                # empty content
         else:
-            ct["mixed"] = bool(o.mixed and d(st.integers(0, 24)) == 0)
+            ct["mixed"] = bool(o.mixed and d(st.integers(0, o.mixed_odds)) == 0)
             prev, self.in_mixed = self.in_mixed, self.in_mixed or ct["mixed"]
             ct["content"] = self.template() if not ct["mixed"] and d(st.integers(0, 5)) == 0 else self.particle(0, set(), top=True)
             self.in_mixed = prev
